@@ -5,7 +5,7 @@ C07 — model of `etl::variant` (include/etl/_variant/variant.hpp), `etl::visit`
 (include/etl/_utility/swap.hpp), and of `etl::optional` (= `variant<nullopt_t,T>`, index 1 = engaged,
 include/etl/_optional/optional.hpp), `etl::optional<T&>` (a nullable pointer) and `etl::expected`
 (= `variant<T,E>`, index 0 = value, include/etl/_expected/expected.hpp), *as they are after the
-`fix:` commits of branch fix-c07* (see known_findings.d/C07.json).
+`fix:` commits of the branches fix-c07, fix-c07b and fix-c07r* (see known_findings.d/C07.json).
 
 A variant object is its `_index` and the value of the active union member.  Every access to a
 union member goes through `getAt` (the `TETL_PRECONDITION(I == index())` of `operator[]` /
@@ -412,6 +412,21 @@ def andThen {ρ : Type} (v : V α) (f : α → ρ) : Except Err (Option ρ) :=
     the result, or `none` when `f` is called instead -/
 def orElse (v : V α) : Except Err (Option α) := if hasValue v then (deref v).map some else .ok none
 
+/-- `value_or(d) const&` (`mv = false`: `has_value() ? **this : static_cast<T>(forward<U>(d))`) and `value_or(d) &&`
+    (`mv = true`: `has_value() ? move(**this) : ...`): the returned prvalue - copy / move constructed from the contained
+    value, or move constructed from the argument temporary - and the optional afterwards -/
+def valueOrCat (el : Elem α) (mv : Bool) (v : V α) (d : α) : Except Err (α × V α) :=
+  if hasValue v then
+    (deref v).map fun x => if mv then ((el.mc x).1, { v with val := (el.mc x).2 }) else (el.cc x, v)
+  else .ok ((el.mc d).1, v)
+
+/-- `or_else(f) const&` (`*this ? *this : f()`) and `or_else(f) &&` (`*this ? move(*this) : f()`): the contained value
+    of the returned optional (copy / move constructed), or `none` when `f` is called instead; and the optional afterwards -/
+def orElseCat (el : Elem α) (mv : Bool) (v : V α) : Except Err (Option α × V α) :=
+  if hasValue v then
+    (deref v).map fun x => if mv then (some (el.mc x).1, { v with val := (el.mc x).2 }) else (some (el.cc x), v)
+  else .ok (none, v)
+
 /-! ### expected = variant<T, E>, index 0 = value -/
 
 /-- `has_value()`: `_u.index() == 0` -/
@@ -425,6 +440,12 @@ def expError (v : V α) : Except Err α := if expHas v then .error (.pre "expect
 
 /-- `value_or(d)`: `static_cast<bool>(*this) ? **this : static_cast<T>(forward<U>(d))` -/
 def expValueOr (v : V α) (d : α) : Except Err α := if expHas v then expDeref v else .ok d
+
+/-- `value_or(d) const&` / `&&` with the copy / move construction of the returned prvalue, and the expected afterwards -/
+def expValueOrCat (el : Elem α) (mv : Bool) (v : V α) (d : α) : Except Err (α × V α) :=
+  if expHas v then
+    (expDeref v).map fun x => if mv then ((el.mc x).1, { v with val := (el.mc x).2 }) else (el.cc x, v)
+  else .ok ((el.mc d).1, v)
 
 /-- `and_then(f)`: `if (has_value()) return invoke(f, **this); return U(unexpect, error());` — `onErr` is what the
     propagated error becomes (a copy / move of it inside the new expected) -/
